@@ -57,6 +57,7 @@ SKIP_CLASSES = {'EigSolver', 'SVDSolver', 'RankClassifier'}
 THREADS_QUICK = [1, 2, 4, 16]
 THREADS_THOROUGH = [1, 2, 3, 4, 8, 16]
 
+PINNED_INSTANCE_THEOREMS = {'linalg/push.pyx:push_pagerank#0': ['pushInit_conforms', 'pushInit_deterministic']}
 SLOW_CLASSES = {'KCenters': 5, 'PageRankClassifier': 4}     # class -> divisor of the number of cases
 SEARCH_HISTORIES = 60
 SEARCH_BUDGET_S = 40
@@ -76,7 +77,50 @@ def _write_if_changed(path, text):
     return False
 
 
+def _tree_tag():
+    """One generated module per tree: concurrent checks with different VERIF_REPO never read each other's data."""
+    import hashlib
+    repo = os.path.abspath(core.REPO)
+    return 'main' if repo == '/repo' else hashlib.sha256(repo.encode()).hexdigest()[:8]
+
+
+def _gen_module():
+    return 'SkNet.Generated.C16T' + _tree_tag()
+
+
+def _gen_path(suffix=''):
+    return os.path.join(core.LEAN_DIR, 'SkNet', 'Generated', 'C16T%s%s.lean' % (_tree_tag(), suffix))
+
+
+def _sweep_stale_generated():
+    """Remove the generated modules of trees that no longer exist, and the shared files of earlier versions."""
+    import glob
+    import re
+    gdir = os.path.join(core.LEAN_DIR, 'SkNet', 'Generated')
+    for f in ('Prange.lean', 'EstimatorState.lean', 'C16Obligations.lean'):
+        p = os.path.join(gdir, f)
+        if os.path.exists(p) and 'tools/translate/' in open(p).read(300) + 'tools/harness/c16.py':
+            try:
+                head = open(p).read(200)
+                if 'tools/translate/prange.py' in head or 'tools/translate/estimators.py' in head or 'tools/harness/c16.py' in head:
+                    os.remove(p)
+            except OSError:
+                pass
+    for p in glob.glob(os.path.join(gdir, 'C16T*.lean')):
+        try:
+            m = re.search(r'VERIF_REPO=(\S+)', open(p).read(400))
+        except OSError:
+            continue
+        if m and not os.path.isdir(m.group(1)):
+            try:
+                os.remove(p)
+            except OSError:
+                pass
+
+
 def generate(ctx):
+    global DRIVE_MODULES
+    import hashlib
     sys.path.insert(0, os.path.join(core.VERIF, 'tools'))
     from translate import prange as TP, estimators as TE
     root = ctx.overlay_root
@@ -84,16 +128,30 @@ def generate(ctx):
     flags = TP.omp_flags(core.REPO)
     descs = TE.extract_tree(root)
     crs = TE.check_random_state_desc(root)
-    gdir = os.path.join(core.LEAN_DIR, 'SkNet', 'Generated')
-    ch1 = _write_if_changed(os.path.join(gdir, 'Prange.lean'), TP.emit_lean(loops, flags))
-    ch2 = _write_if_changed(os.path.join(gdir, 'EstimatorState.lean'), TE.emit_lean(descs, crs))
-    # the kernel-check file is rewritten in run(); a stale one (verdicts of other data) must never block a build
-    ob = os.path.join(gdir, 'C16Obligations.lean')
-    if ch1 or ch2 or not os.path.exists(ob):
-        _write_if_changed(ob, '/- generated by tools/harness/c16.py (placeholder until the next run) -/\n')
+    mod = _gen_module()
+    body = TP.emit_lean(loops, flags, namespace=mod + '.Prange', header=False) + '\n' + \
+        TE.emit_lean(descs, crs, namespace=mod + '.EstimatorState', header=False)
+    data_hash = hashlib.sha256(body.encode()).hexdigest()[:16]
+    text = ('/- generated by tools/harness/c16.py (translators tools/translate/prange.py, estimators.py); do not edit\n'
+            '   VERIF_REPO=%s -/\n' % os.path.abspath(core.REPO) +
+            'import SkNet.Model.ParFor\nimport SkNet.Model.Estimator\nimport SkNet.Drive.C16\n\n' + body +
+            '\nnamespace %s\n' % mod +
+            'def dataHash : String := "%s"\n' % data_hash +
+            'def handle : SkNet.Handler := SkNet.Drive.C16.handleWith\n'
+            '  { loops := Prange.loops, tbl := EstimatorState.estimators, crs := EstimatorState.checkRandomState,\n'
+            '    ompCompile := Prange.ompCompile, ompLink := Prange.ompLink, hash := dataHash }\n'
+            'end %s\n' % mod)
+    _sweep_stale_generated()
+    changed = _write_if_changed(_gen_path(), text)
+    # the kernel-check file is rewritten by every run; until then a placeholder (verdicts of other data must never be
+    # left on disk, nor block a build)
+    _write_if_changed(_gen_path('Ob'), '/- generated by tools/harness/c16.py (placeholder until obligations() of this run) -/\n')
+    DRIVE_MODULES = [mod]
+    _GEN.clear()
     _GEN.update({'loops': loops, 'flags': flags, 'descs': {d['name']: d for d in descs}, 'crs': crs,
                  'loop_ident': {l['name']: TP.lean_ident(l['name']) for l in loops},
-                 'est_ident': {d['name']: TE.lean_ident(d['name']) for d in descs}})
+                 'est_ident': {d['name']: TE.lean_ident(d['name']) for d in descs},
+                 'hash': data_hash, 'module': mod, 'changed': changed})
 
 
 # ------------------------------------------------------------------------------------------------
@@ -1099,16 +1157,16 @@ def obligations(ctx):
     """Decide every generated obligation through the driver; kernel-check the verdicts."""
     loops = [l['name'] for l in _GEN['loops']]
     ests = sorted(_GEN['descs'])
-    lines = ['c16.loops', 'c16.ests', 'c16.omp', 'c16.crs_ok'] + ['c16.racefree ' + n for n in loops] + \
+    lines = ['c16.datahash', 'c16.loops', 'c16.ests', 'c16.omp', 'c16.crs_ok'] + ['c16.racefree ' + n for n in loops] + \
             ['c16.history ' + n for n in ests] + ['c16.pinned ' + n for n in loops]
     ans = ctx.lean(lines)
+    if ans[0] != _GEN['hash']:
+        raise core.ToolFailure('the driver answers from other generated data than this run wrote (hash %s, expected %s)'
+                               % (ans[0], _GEN['hash']))
+    ans = ans[1:]
     pinned = dict(zip(loops, ans[4 + len(loops) + len(ests):]))
     ans = ans[:4 + len(loops) + len(ests)]
     ctx.extra['prange_descriptor_vs_pinned'] = pinned
-    for n, v in pinned.items():
-        if v != 'same':
-            ctx.note('descriptor of %s is %s with respect to the pinned one: the instance theorems (pushInit_conforms, '
-                     'diteration_not_deterministic) speak about the pinned descriptor; the generated one is decided on its own' % (n, v))
     got_loops = [] if ans[0] == '-' else ans[0].split(',')
     got_ests = [] if ans[1] == '-' else ans[1].split(',')
     if sorted(got_loops) != sorted(loops) or sorted(got_ests) != sorted(ests):
@@ -1120,8 +1178,10 @@ def obligations(ctx):
     _GEN['verdict_loops'] = verdict_loops
     ctx.extra['prange_loops'] = verdict_loops
     ctx.extra['estimator_classes'] = verdict_ests
-    ctx.extra['omp_flags_setup_py'] = omp
-    ctx.extra['float_reductions'] = {n: v.split('inexact=')[1] for n, v in verdict_loops.items() if 'inexact=' in v}
+    ctx.extra['omp_flags_setup_py (reported only: the overlay always compiles with -fopenmp)'] = omp
+    ctx.extra['set_params_on_derived'] = {n: derived_params(n) for n in ests if derived_params(n)}
+    ctx.extra['parameter_objects_assumed_history_independent'] = {
+        n: v.split('assumes=')[1] for n, v in verdict_ests.items() if 'assumes=' in v}
     findings = core.load_findings()
     known_negative = {}      # obligation name -> finding id: false *because of* a recorded known finding
     new_false = []           # false, and nothing recorded explains it
@@ -1130,14 +1190,15 @@ def obligations(ctx):
         ctx.broken('crsOK', {'table': _GEN['crs']}, {'obligation': 'crsOK', 'entry': 'check_random_state'})
     for n, v in verdict_loops.items():
         ctx.count('prange:' + v.split(' ')[0])
-        if not v.startswith('racefree'):
-            sig = _loop_sig(n)
+        if v != 'racefree':
+            sig = _loop_sig(n) if v.startswith('racy') else {'obligation': 'float-reduction', 'loop': n}
             f = core.match_finding(findings, ctx.prop, sig)
             if f is not None:
-                known_negative['raceFree:' + n] = f['id']
+                known_negative[sig['obligation'] + ':' + n] = f['id']
             else:
-                new_false.append('raceFree:' + n)
-            ctx.broken('raceFree:' + n, {'verdict': v, 'descriptor': next(l for l in _GEN['loops'] if l['name'] == n)['accs']}, sig)
+                new_false.append(sig['obligation'] + ':' + n)
+            ctx.broken(sig['obligation'] + ':' + n,
+                       {'verdict': v, 'descriptor': next(l for l in _GEN['loops'] if l['name'] == n)['accs']}, sig)
     not_covered = []
     for n, v in verdict_ests.items():
         ctx.count('history:' + v.split(' ')[0])
@@ -1157,41 +1218,51 @@ def obligations(ctx):
         ctx.broken('historyOK:' + n, {'verdict': v, 'description': _GEN['descs'][n]}, sig)
     ctx.extra['known_negative_obligations'] = known_negative
     ctx.extra['classes_outside_the_description_language'] = not_covered
-    # kernel check of the verdicts
-    gp, ge = 'SkNet.Generated.Prange', 'SkNet.Generated.EstimatorState'
-    out = ['/- generated by tools/harness/c16.py: kernel check of the verdicts the driver gave on the generated data -/',
-           'import SkNet.Generated.Prange', 'import SkNet.Generated.EstimatorState',
-           'namespace SkNet.Generated.C16Obligations', 'open SkNet.ParFor SkNet.Estimator', '']
+    # kernel check of the verdicts (always rewritten: the file on disk is the one of this run)
+    mod = _GEN['module']
+    gp, ge = mod + '.Prange', mod + '.EstimatorState'
+    out = ['/- generated by tools/harness/c16.py: kernel check of the verdicts the driver gave on the generated data',
+           '   VERIF_REPO=%s data=%s -/' % (os.path.abspath(core.REPO), _GEN['hash']),
+           'import ' + mod, 'namespace %sOb' % mod, 'open SkNet.ParFor SkNet.Estimator', '']
     names = []
     for n in loops:
         t = 'prange_' + _GEN['loop_ident'][n]
         names.append(t)
-        out.append('theorem %s : %s.%s.raceFree = %s := by decide' % (
-            t, gp, _GEN['loop_ident'][n], 'true' if verdict_loops[n].startswith('racefree') else 'false'))
+        out.append('theorem %s : %s.%s.deterministic = %s := by decide' % (
+            t, gp, _GEN['loop_ident'][n], 'true' if verdict_loops[n] == 'racefree' else 'false'))
     for n in ests:
         t = 'history_' + _GEN['est_ident'][n]
         names.append(t)
-        out.append('theorem %s : Est.historyOK %s.estimators %d %s.%s = %s := by decide' % (
+        out.append('theorem %s : Est.staticOK %s.estimators %d %s.%s = %s := by decide' % (
             t, ge, FUEL, ge, _GEN['est_ident'][n], 'true' if verdict_ests[n].startswith('ok') else 'false'))
     names.append('crs')
     out.append('theorem crs : crsOK %s.checkRandomState = %s := by decide' % (ge, 'true' if ans[3] == 'holds' else 'false'))
-    out.append('end SkNet.Generated.C16Obligations')
-    path = os.path.join(core.LEAN_DIR, 'SkNet', 'Generated', 'C16Obligations.lean')
-    _write_if_changed(path, '\n'.join(out) + '\n')
-    ok, log = core.lake_build(['SkNet.Generated.C16Obligations'])
+    out.append('end %sOb' % mod)
+    path = _gen_path('Ob')
+    with open(path, 'w') as fh:
+        fh.write('\n'.join(out) + '\n')
+    ok, log = core.lake_build([mod + 'Ob'])
     hits = core.scan_forbidden([path])
     failed = 0
     if not ok or hits:
-        failed = max(1, len(set(m for m in __import__('re').findall(r'C16Obligations\.lean:(\d+)', log))))
+        failed = max(1, len(set(m for m in __import__('re').findall(r'Ob\.lean:(\d+)', log))))
         ctx.broken('kernel-check', {'log': log[-1500:], 'forbidden': hits}, {'obligation': 'kernel-check'})
     # obligations = what is required to hold on this tree: the true verdicts (kernel-checked) and every false one that
     # no recorded known finding explains; a known-negative descriptor is covered by its kernel-checked negation
     # (`= false := by decide` in the same file) and by the witness theorems of Properties/C16.lean, and is listed
     # under `known_negative_obligations`; classes outside the description language are not obligations at all.
-    true_ones = sum(1 for v in verdict_loops.values() if v.startswith('racefree')) + \
+    true_ones = sum(1 for v in verdict_loops.values() if v == 'racefree') + \
         sum(1 for v in verdict_ests.values() if v.startswith('ok')) + (1 if ans[3] == 'holds' else 0)
+    # theorems of Properties/C16.lean that speak about a pinned descriptor count only while the generated descriptor
+    # still coincides with it
+    stale_instances = [n for n, v in pinned.items() if v == 'changed' and n in PINNED_INSTANCE_THEOREMS]
+    for n in stale_instances:
+        ctx.note('descriptor of %s differs from the pinned one: %s speak about the pinned loop and are not counted as '
+                 'discharged' % (n, ', '.join(PINNED_INSTANCE_THEOREMS[n])))
+    n_stale = sum(len(PINNED_INSTANCE_THEOREMS[n]) for n in stale_instances)
     ctx.extra['generated_obligations'] = true_ones + len(new_false)
-    ctx.extra['generated_discharged'] = max(0, true_ones - failed) if ok else 0
+    # (the hand-written theorems stay in the audit's count of obligations: they are taken out of `discharged` here)
+    ctx.extra['generated_discharged'] = (max(0, true_ones - failed) if ok else 0) - n_stale
     ctx.extra['generated_kernel_checked'] = len(names) if ok and not hits else 0
     ctx.extra['generated_new_false'] = new_false
     return verdict_loops, verdict_ests
